@@ -196,7 +196,7 @@ def r2(ctx):
 @rule("C18", "R3", "TERM", "a scalar price and a constant per-pair vector become the same array inside the kernel")
 def r3(ctx):
     from . import c01
-    c01.r5(ctx)
+    ctx.sub(c01.r5)
 
 
 def _is_bare_hyper(ana, fi, e, taint) -> bool:
@@ -279,3 +279,88 @@ def r5(ctx):
                          role=f"inplace:{short(q)}:{p}:{short(m.func.qualname)}:{m.kind}", expected="new objects only", found=", ".join(map(str, objs))[:100])
             if not hits:
                 ctx.ok(fi, f"`{p}` is never written in place along {short(q)}", role=f"inplace:{short(q)}:{p}")
+
+
+def _scalar_kind(p) -> int:
+    """+1: the guard says 'lambda is a scalar', -1: 'lambda is not a scalar / is an array', 0: unrelated."""
+    if isinstance(p, tm.Cmp) and any(isinstance(x, App) and x.fn == "numpy.ndim" for x in tm.subterms(p)):
+        return {"==": 1, "!=": -1, ">": -1, ">=": -1}.get(p.op, 0)
+    if isinstance(p, tm.Not):
+        return -_scalar_kind(p.arg)
+    if isinstance(p, App) and p.fn == "numpy.isscalar":
+        return 1
+    if isinstance(p, App) and p.fn == "builtins.isinstance":
+        arr = any(isinstance(x, Sym) and x.name == "numpy.ndarray" for x in tm.subterms(p))
+        return -1 if arr else 1
+    return 0
+
+
+def _const_fill(t, lam):
+    """Value of `t` when the array `lam` holds one value everywhere: numpy.sum(lam[rows, cols]) -> len(rows) * lam."""
+    def f(x):
+        if isinstance(x, App) and x.fn == "numpy.sum" and len(x.args) == 1 and not x.kw and isinstance(x.args[0], Idx) and x.args[0].base == lam:
+            n = tm.length(x.args[0].idx[0])
+            if n is not None:
+                return tm.mul(n, lam)
+        if isinstance(x, App) and x.fn in ("float", "builtins.float") and x.args == (lam,):
+            return lam
+        return None
+    return tm.rewrite(t, f) if hasattr(tm, "rewrite") else _rewrite(t, f)
+
+
+def _rewrite(t, f):
+    r = f(t)
+    if r is not None:
+        return r
+    if isinstance(t, Poly):
+        out = tm.ZERO
+        for mono, coef in t.terms:
+            m = tm.as_term(coef)
+            for a, e in mono:
+                m = tm.mul(m, tm.power(_rewrite(a, f), e))
+            out = tm.add(out, m)
+        return out
+    return t
+
+
+@rule("C18", "R6", "AGREE", "the threshold Q that reaches the soft-threshold is one value for a scalar weight and for a matrix filled with it, on every path", floor=2)
+def r6(ctx):
+    ana = ctx.ana
+    fi = ana.func("admm.solver.admm_update_z")
+    stp = ana.func("admm.solver.soft_threshold_prox")
+    b = ana.builder(fi, no_inline=lambda f: f.qualname == stp.qualname)
+    lam = tm.Attr(Sym(fi.params[0]), "sparsity_weight")
+    thr_pos = 1
+    qs = []
+    for s in b.stores():
+        if s.idx is None:
+            continue
+        for g0, v0 in tm.pieces_of(s.value):
+            for x in tm.subterms(v0):
+                if isinstance(x, App) and x.fn == stp.qualname:
+                    q = x.args[thr_pos] if len(x.args) > thr_pos else x.kw.get(stp.params[thr_pos])
+                    if q is not None:
+                        qs.append((g0, q, s))
+    if not qs:
+        raise AnalysisError("no soft_threshold_prox application found in the Z update's stores")
+    for g0, q, s in qs:
+        leaves = []
+        for g, v in tm.pieces_of(q):
+            parts = []
+            for gg in (g0, g):
+                parts += list(gg.parts) if isinstance(gg, tm.And) else [gg]
+            kinds = {_scalar_kind(p) for p in parts} - {0}
+            if kinds == {1, -1}:
+                continue   # infeasible: scalar and not scalar at once
+            leaves.append((kinds, v))
+        vals = {}
+        for kinds, v in leaves:
+            cv = _const_fill(v, lam)
+            vals.setdefault(cv.key, (cv, []))[1].append("scalar" if kinds == {1} else "matrix" if kinds == {-1} else "any")
+        forms = sorted({k for _, ks in vals.values() for k in ks})
+        ctx.check(len(vals) == 1, fi, "every form of the sparsity weight yields the same threshold Q (matrix evaluated at a constant fill)",
+                  line=s.stmt, role="Q:forms-agree", expected="one value over " + "/".join(forms),
+                  found="; ".join(f"{'/'.join(ks)}: {cv}" for cv, ks in vals.values())[:300])
+        only = next(iter(vals.values()))[0]
+        ctx.check(any(x == lam for x in tm.subterms(only)), fi, "that value depends on the user's sparsity weight", line=s.stmt,
+                  role="Q:uses-lambda", found=str(only)[:120])
